@@ -36,28 +36,41 @@ def optionalInner (t : Str) : Option Str :=
   else none
 def isLiteral (t : Str) : Bool := startsWith t pLiteral
 
+def sNone : Str := ['N', 'o', 'n', 'e']
+
+/-- doctrans' `none_types`: Python `None`, the string "None", and the code-quoted `NoneStr` -/
 def isNoneVal : Val → Bool
   | .none => true
+  | .str s => s == sNone || s == noneStr
   | _ => false
+
+/-- what the class / function / numpydoc / google parsers write for "no value" -/
+def vNoneStr : Val := .str noneStr
 
 /-- a code-quoted default (three back-ticks on both sides) -/
 def isCodeVal : Val → Bool
-  | .str s => codeQuoted s
+  | .str s => codeQuoted s && s != noneStr
   | _ => false
 
+inductive DocStyle where
+  | rest | numpydoc | google
+deriving DecidableEq, Repr
+
 inductive Kind where
-  | cls | func (inlineTypes : Bool) | argparse
+  | cls | func (inlineTypes : Bool) | argparse | doc (style : DocStyle)
 deriving DecidableEq, Repr
 
 /-! ### class -/
 
+def classFill (p : Param) : Param :=
+  match p.typ with
+  | some t => { p with default := some (if isScalar t then zeroOf t else vNoneStr) }
+  | none => { p with default := some vNoneStr }
+
 def normClassParam (p : Param) : Param :=
   match p.default with
-  | some v => if isNoneVal v then { p with default := some .none } else p
-  | none =>
-    match p.typ with
-    | some t => { p with default := some (if isScalar t then zeroOf t else .none) }
-    | none => { p with default := some .none }
+  | some v => if isNoneVal v then classFill p else p
+  | none => classFill p
 
 /-- inputs on which the class round trip is this regular (everything else is a recorded finding or
     outside the property's domain) -/
@@ -67,20 +80,18 @@ def domParamCommon (p : Param) : Bool :=
 
 def domClassParam (p : Param) : Bool :=
   domParamCommon p &&
-  (match p.typ, p.default with
-   | some t, some (.str s) => !(s.isEmpty && t != tStr)      -- '' survives only with `str`
-   | _, _ => true) &&
+  (p.default != some (.str [])) &&                           -- '' leaves a dangling "Defaults to" in the prose
   (p.typ != some ['d', 'i', 'c', 't'])
 
 /-! ### function / method -/
 
 def normFuncParam (p : Param) : Param :=
   match p.default with
-  | some v => if isNoneVal v then { p with default := some .none } else p
-  | none => { p with default := some .none }
+  | some v => if isNoneVal v then { p with default := some vNoneStr } else p
+  | none => { p with default := some vNoneStr }
 
 def domFuncParam (inlineTypes : Bool) (p : Param) : Bool :=
-  domParamCommon p &&
+  domParamCommon p && (p.default != some (.str [])) &&
   (!inlineTypes ||
     (match p.typ, p.default with
      | some t, some v => isNoneVal v || isScalar t    -- D27: an explicit default re-types Optional/Literal/... when types are inline
@@ -88,35 +99,57 @@ def domFuncParam (inlineTypes : Bool) (p : Param) : Bool :=
 
 /-! ### argparse -/
 
+def argFill (t : Str) (p : Param) : Param :=
+  if isScalar t then { p with default := some (zeroOf t) }
+  else match listInner t with
+    | some inner => { p with default := some (zeroOf inner) }
+    | none => if isLiteral t then { p with default := some (.str []) } else { p with default := some vNoneStr }
+
 def normArgparseParam (p : Param) : Param :=
   match p.typ with
   | none => p
   | some t =>
     match p.default with
-    | some v =>
-      if isNoneVal v then
-        (match listInner t with
-         | some inner => { p with default := some (zeroOf inner) }
-         | none => { p with default := some .none })
-      else p
-    | none =>
-      if isScalar t then { p with default := some (zeroOf t) }
-      else match listInner t with
-        | some inner => { p with default := some (zeroOf inner) }
-        | none => if isLiteral t then { p with default := some (.str []) } else { p with default := some .none }
+    | some v => if isNoneVal v then argFill t p else p
+    | none => argFill t p
 
 def domArgparseParam (p : Param) : Bool :=
   domParamCommon p &&
   (match p.typ with
    | some t =>
-     if t == tBool then p.default.isSome && p.default != some .none          -- D28: bool without default
-     else if isScalar t then p.default != some .none
+     let noneStrLike := match p.default with | some (.str s) => s == sNone || s == noneStr | _ => false
+     let noneLike := match p.default with | some v => isNoneVal v | none => true
+     if t == tBool then !noneLike                                           -- D28: bool without default
+     else if isScalar t then !noneStrLike          -- `NoneStr` on a scalar re-types it Optional[...]; Python `None` gives the zero value
      else if isOptional t then (match optionalInner t with | some i => isScalar i | none => false)
-     else if (listInner t).isSome then
-       (listInner t != some tBool) && (match p.default with | some v => isNoneVal v | none => true)
-     else if isLiteral t then startsWith t (pLiteral ++ ['\'']) && t.contains ','
+     else if (listInner t).isSome then (listInner t != some tBool) && noneLike && !noneStrLike
+     else if isLiteral t then startsWith t (pLiteral ++ ['\'']) && t.contains ',' && !noneStrLike
      else false
    | none => false)
+
+/-! ### docstrings (on the domain where the C01 round trip is the identity up to `None` spelling) -/
+
+def kwargsName (n : Str) : Bool := endsWith n ['k', 'w', 'a', 'r', 'g', 's']
+
+def normDocEntry (st : DocStyle) (n : Str) (p : Param) : Param :=
+  let noneOut : Val := match st with | .rest => .str sNone | _ => vNoneStr
+  match p.default with
+  | some v => if isNoneVal v then { p with default := some (if kwargsName n then vNoneStr else noneOut) } else p
+  | none => if kwargsName n then { p with default := some vNoneStr } else p
+
+def domDocParam (p : Param) : Bool :=
+  domParamCommon p &&
+  (match p.default with
+   | some (.str s) => !s.isEmpty && !s.contains '.'
+   | _ => true) &&
+  (match p.doc with | some d => !containsSub d ['e', 'f', 'a', 'u', 'l', 't', 's'] | none => true)
+
+/-- numpydoc/google invent a default for every entry after a defaulted one (finding D7) -/
+def noUndefaultedAfterDefaulted : List (Str × Param) → Bool → Bool
+  | [], _ => true
+  | (n, p) :: rest, seen =>
+    if p.default.isSome then noUndefaultedAfterDefaulted rest true
+    else (!seen || kwargsName n) && noUndefaultedAfterDefaulted rest seen
 
 /-! ### whole descriptions -/
 
@@ -131,6 +164,8 @@ def norm (k : Kind) (ir : IR) : IR :=
               returns := match ir.returns with
                 | some r => if r.default.isSome then some r else none
                 | none => none }
+  | .doc st => { ir with params := ir.params.map fun kp => (kp.1, normDocEntry st kp.1 kp.2),
+                         returns := ir.returns.map (normDocEntry st []) }
 
 def dom (k : Kind) (ir : IR) : Bool :=
   match k with
@@ -138,6 +173,17 @@ def dom (k : Kind) (ir : IR) : Bool :=
   | .func i => ir.params.all (fun kp => domFuncParam i kp.2) &&
       (match ir.returns with | some r => r.typ.isSome && r.doc.isSome && r.default.isNone | none => true)
   | .argparse => ir.params.all (fun kp => domArgparseParam kp.2 && !endsWith kp.1 ['k', 'w', 'a', 'r', 'g', 's']) && ir.returns.isNone
+  | .doc st =>
+    ir.params.all (fun kp => domDocParam kp.2) && (ir.returns.map domDocParam).getD true &&
+    (match st with
+     | .rest => true
+     | .numpydoc => noUndefaultedAfterDefaulted (ir.params ++ (match ir.returns with | some r => [([], r)] | none => [])) false
+     | .google => ir.returns.isNone && noUndefaultedAfterDefaulted ir.params false)
+
+/-- a chain of conversions; `none` as soon as a description leaves the domain of the next kind -/
+def chain : List Kind → IR → Option IR
+  | [], ir => some ir
+  | k :: ks, ir => if dom k ir then chain ks (norm k ir) else none
 
 end Kinds
 end Py
